@@ -23,6 +23,10 @@ pub struct Vocab {
     pub has_imag: BTreeMap<String, bool>,
     pub has_point: BTreeMap<String, bool>,
     pub has_shift: BTreeMap<String, bool>,
+    /// the common sub-languages of C15 (spec/Common.tla)
+    pub common: BTreeMap<String, Vec<String>>,
+    /// function -> name of its real-domain class (spec/Common.tla RealDomain)
+    pub real_domain: BTreeMap<String, String>,
 }
 
 fn strs(v: &Value) -> Vec<String> {
@@ -56,6 +60,8 @@ impl Vocab {
             has_imag: boolmap(&v["hasImag"]),
             has_point: boolmap(&v["hasPoint"]),
             has_shift: boolmap(&v["hasShift"]),
+            common: v["common"].as_object().map(|o| o.iter().filter(|(_, a)| a.is_array()).map(|(k, a)| (k.clone(), strs(a))).collect()).unwrap_or_default(),
+            real_domain: v["common"]["realDomain"].as_object().map(|o| o.iter().map(|(k, a)| (k.clone(), a.as_str().unwrap_or("").to_string())).collect()).unwrap_or_default(),
         }
     }
     pub fn keywords_of(&self, e: &str, cls: &str) -> Vec<&Keyword> {
